@@ -7,6 +7,7 @@
   cross-check of the statements proved in `Props/C05.lean`.
 -/
 import XotModel.Model.FspecSpec
+import XotModel.Model.FspecSpec2
 import XotModel.Driver.Forest
 
 namespace XotModel.Driver
@@ -57,7 +58,7 @@ def specOf (s : FState) (ws : List String) (resident : Bool) : Option (Forest ×
       some (specWrap n nm f, (f.elementWrap n nm).1)
   | ["replace", a, b] => do
       let o ← node a; let n ← node b
-      some (specReplace (keep n) o n f, (f.replace o n).1)
+      some (if resident then specReplaceX o n f else specReplace Keep.earlier o n f, (f.replace o n).1)
   | _ => none
 
 def handleFspec (s : FState) (ws : List String) : Option String :=
